@@ -625,6 +625,17 @@ impl Prop for C19 {
             };
             events.push((t, ev));
         }
+        // one call that yields hundreds of output records: LIST of a long program (every record must reach
+        // the page in the take that follows the call)
+        let mut load = load;
+        if rng.chance(1, 300) {
+            let n = 200 + rng.usize(500);
+            let text: Vec<String> = (1..=n).map(|i| if i % 7 == 0 { format!("{} REM {}", i, i) } else { format!("{} PRINT {}", i, i) }).collect();
+            load = Some(text.join("\n"));
+            let at = rng.usize(events.len() + 1);
+            let t_at = if at < events.len() { events[at].0 } else { t };
+            events.insert(at, (t_at, Ev::Submit("LIST".into())));
+        }
         Case {
             load,
             date_now: match rng.below(4) {
